@@ -15,7 +15,7 @@ CONSTANTS
   LoadLocks = TRUE
   SaveLocks = TRUE
   TruncFirst = FALSE
-  UnlinkLockWhenFinal = FALSE
+  UnlinkLockWhenFinal = TRUE
   StatBeforeLock = FALSE
   FreshUpdates = FALSE
   Reread = TRUE
